@@ -164,4 +164,53 @@ end
 def runC (e : LExpr) : PyM O := result (evC e)
 def runI (e : LExpr) : PyM O := evI e
 
+/-! ### the property's reading (specification), partial: `none` = "the statement says nothing"
+
+Mirrors `spec()` of `py/verif/props/c02.py` (the independent oracle of the check); the driver prints it
+(`S` lines) so that the two are compared on every generated tree, and `Props.C02.spec_sound` proves that
+both runners' models meet it on EVERY tree, non-boolean leaves included. -/
+
+/-- a non-boolean, non-error value -/
+def O.nb : O → Bool
+  | .vt => true | .vf => true | _ => false
+
+/-- `a && b` (`dec = f`, `oth = t`) / `a || b` (`dec = t`, `oth = f`): the deciding operand decides whatever the
+other one is (unspecified, error, non-boolean); two non-booleans are an error; one non-boolean beside a
+non-deciding operand is unspecified; otherwise Kleene. -/
+def specBin (dec oth : O) (a b : Option O) : Option O :=
+  if a = some dec ∨ b = some dec then some dec
+  else match a, b with
+    | some x, some y =>
+      if x.nb && y.nb then some .e
+      else if x.nb || y.nb then none
+      else if x = oth ∧ y = oth then some oth
+      else some .e
+    | _, _ => none
+
+def specNot : Option O → Option O
+  | some .t => some .f | some .f => some .t | some .e => some .e | _ => none
+
+/-- `c ? x : y`: the selected branch (whatever the other one is); an error or non-boolean condition is an error -/
+def specCond (c x y : Option O) : Option O :=
+  match c with
+  | some .t => x
+  | some .f => y
+  | none => none
+  | some _ => some .e
+
+mutual
+def spec : LExpr → Option O
+  | .lit o => some o
+  | .and a b => specBin .f .t (spec a) (spec b)
+  | .or a b => specBin .t .f (spec a) (spec b)
+  | .not a => specNot (spec a)
+  | .cond c x y => specCond (spec c) (spec x) (spec y)
+  -- "the all / exists macros apply the same absorbing rules across the elements of a list"
+  | .all xs => (specs xs).foldl (specBin .f .t) (some .t)
+  | .exists_ xs => (specs xs).foldl (specBin .t .f) (some .f)
+def specs : List LExpr → List (Option O)
+  | [] => []
+  | x :: xs => spec x :: specs xs
+end
+
 end Cel
